@@ -193,10 +193,12 @@ Definition gj_inv (G : list (list Q)) : option (list (list Q)) :=
   | Some A => Some (map (skipn n) A)
   | None => None
   end.
-(** the inverse, accepted only if G * H = I and H * G = I hold exactly *)
+(** the inverse, accepted only if H is n x n and G * H = I and H * G = I hold exactly *)
 Definition inv_checked (G : list (list Q)) : option (list (list Q)) :=
+  let n := length G in
   match gj_inv G with
-  | Some H => if qll_eqb (mmul G H) (ident (length G)) && qll_eqb (mmul H G) (ident (length G)) then Some H else None
+  | Some H => if Nat.eqb (length H) n && forallb (fun r => Nat.eqb (length r) n) H
+                 && qll_eqb (mmul G H) (ident n) && qll_eqb (mmul H G) (ident n) then Some H else None
   | None => None
   end.
 Definition scale_mat (c : Q) (G : list (list Q)) : list (list Q) := map (map (Qmult c)) G.
